@@ -14,6 +14,7 @@ import Hw.Topo.RestrictMerge
 import Hw.Topo.RenderTop
 import Hw.Topo.RenderCounts
 import Hw.Topo.RenderCover
+import Hw.Topo.RenderSets
 import Hw.Attr.MemAttrsState
 namespace Hw.Props.C08
 open Hw.Topo Hw.Topo.Restrict Hw.Gen.Restrict
@@ -666,6 +667,18 @@ theorem C08_render_type_depth_inverse (t : Tree) (h : Hdr) (ex : RObj → Extra)
     topClause "type-depth-inverse" (render t h ex) (mkAux (render t h ex)) = true :=
   render_type_depth_inverse t h ex
 
+/-- (4) the set clauses **sets-presence** (from `setsPresT`: an object carries sets iff it is neither I/O nor Misc) and
+    **set-in-complete** (from SetsOK) for the rendering of ANY such tree; `setsPresT` holds for the tree of every WF dump and is
+    preserved by the whole restrict model -/
+theorem C08_render_sets (t : Tree) (h : Hdr) (ex : RObj → Extra) (o : Obj) (ho : o ∈ (render t h ex).objs) :
+    (setsPresT t = true → objClause "sets-presence" (render t h ex) (mkAux (render t h ex)) o = true) ∧
+    (okT t = true → objClause "set-in-complete" (render t h ex) (mkAux (render t h ex)) o = true) :=
+  ⟨fun hs => render_sets_presence t hs h ex o ho, fun hok => render_set_in_complete t hok h ex o ho⟩
+
+theorem C08_setsPres (d : Dump) (h : WF d) (t : Tree) (ht : treeOf d = .ok t) (T : Topo) (s : CSet) (flags : Nat) :
+    setsPresT t = true ∧ (setsPresT T.tree = true → setsPresT (restrict T s flags).1.tree = true) :=
+  ⟨treeOf_setsPres h t ht, setsPres_restrict T s flags⟩
+
 /-- (4) **C08_restrict_wf_partial**: for an input whose tree is typed, has PUs as leaves, a Machine root and is `mergeSafe` (all
     consequences of WF and of the API fact about filters: C08_wf_implies_okT, C08_wf_mergeSafe), the topology
     after ANY restrict call — with NO hypothesis on the result — satisfies, besides the 7 link clauses of C08_restrict_links and
@@ -726,10 +739,11 @@ theorem C08_restrict_numa_exists (t : Topo) (flagsT : Nat) (s : CSet) (flags : N
 
 /-! ### A8: everything from `WF d` alone -/
 
-/-- the 12 object-level and 11 topology-level WF clauses that are PROVED for the topology after any restrict call -/
+/-- the 14 object-level and 11 topology-level WF clauses that are PROVED for the topology after any restrict call -/
 def provedObjClauses : List String :=
   ["id-is-position", "root-or-parent", "parent-kind", "normal-child-slot", "children-array", "special-list-heads",
-   "special-list-links", "no-children-where-forbidden", "children-counts", "depth-by-type", "depth-increases", "in-its-level"]
+   "special-list-links", "no-children-where-forbidden", "children-counts", "depth-by-type", "depth-increases", "in-its-level",
+   "sets-presence", "set-in-complete"]
 def provedTopClauses : List String :=
   ["nobjs", "levels-listed", "level-entries-valid", "levels-in-tree-order", "normal-levels-nonempty", "depth-le-objects",
    "level0-is-root", "root-is-machine", "machine-only-at-root", "levels-cover-objects", "type-depth-inverse"]
@@ -739,7 +753,7 @@ def provedTopClauses : List String :=
     topology of the dump and `R` the model's result:
     (a) `R` satisfies again every tree hypothesis (SetsOK, typing, PUs are leaves, Machine root, mergeSafe, one Machine), so the
         statement applies to the next call too;
-    (b) the rendered result satisfies 12 object-level and 11 topology-level clauses of `WF` (`provedObjClauses`, `provedTopClauses`);
+    (b) the rendered result satisfies 14 object-level and 11 topology-level clauses of `WF` (`provedObjClauses`, `provedTopClauses`);
     (c) after a successful call by cpuset the PUs are exactly the previous PUs with os_index ∈ S, each still a singleton, and a
         NUMA node disappears only under REMOVE_CPULESS when CPU-less afterwards; by nodeset the mirror statements — all through
         level merging.
@@ -781,7 +795,7 @@ theorem C08_restrict_from_wf_partial (d : Dump) (h : WF d) (t : Tree) (ht : tree
   refine ⟨⟨a1.1, a1.2.1, a2.1, hm', a2.2.2, machineOnce_restrict T s flags h1m⟩, ?_, ?_, ?_⟩
   · intro c hc o ho
     simp only [provedObjClauses, List.mem_cons, List.mem_nil_iff, or_false] at hc
-    rcases hc with rfl | rfl | rfl | rfl | rfl | rfl | rfl | rfl | rfl | rfl | rfl | rfl
+    rcases hc with rfl | rfl | rfl | rfl | rfl | rfl | rfl | rfl | rfl | rfl | rfl | rfl | rfl | rfl
     · exact (links o ho).1
     · exact (links o ho).2.1
     · exact (links o ho).2.2.1
@@ -794,6 +808,8 @@ theorem C08_restrict_from_wf_partial (d : Dump) (h : WF d) (t : Tree) (ht : tree
     · exact (levels.1 o ho).1
     · exact (levels.1 o ho).2.1
     · exact (levels.1 o ho).2.2
+    · exact render_sets_presence _ (setsPres_restrict T s flags (treeOf_setsPres h t ht)) _ ex o ho
+    · exact render_set_in_complete _ a1.1 _ ex o ho
   · intro c hc
     simp only [provedTopClauses, List.mem_cons, List.mem_nil_iff, or_false] at hc
     rcases hc with rfl | rfl | rfl | rfl | rfl | rfl | rfl | rfl | rfl | rfl | rfl
